@@ -140,10 +140,14 @@ def _setup(scratch, tty=False):
 
         master, slave = pty.openpty()
         fcntl.ioctl(slave, termios.TIOCSCTTY, 0)
-        for fd in (0, 1, 2):
+        # stdin stays /dev/null (a first stage that reads stdin must see EOF, not wait for a keyboard);
+        # xonsh hands the terminal over through fd 2 (jobs.give_terminal_to uses FD_STDERR)
+        os.dup2(os.open(os.devnull, os.O_RDONLY), 0)
+        for fd in (1, 2):
             os.dup2(slave, fd)
         os.close(slave)
-        tty_fd = 0
+        tty_fd = 2
+        signal.signal(signal.SIGTTOU, signal.SIG_IGN)
 
         def drain():
             while True:
@@ -377,6 +381,20 @@ def shape_f1_blocked_alias(case):
     return False
 
 
+def shape_f1_alias_before(case):
+    """F1 shape where a threaded callable alias was started before the stage that cannot start: its thread is
+    never joined, so it is still inside its stdout / SIGINT scope when the command returns and can overlap
+    with the alias threads of the following commands."""
+    if not _threaded(case):
+        return False
+    for cmd in case["cmds"]:
+        st = cmd["stages"]
+        for k, s in enumerate(st):
+            if s in NOSTART and any(STAGES[x][2] and x != "aunth" for x in st[:k]):
+                return True
+    return False
+
+
 def shape_f2(case):
     """Threaded callable alias that is not the last stage of its pipeline."""
     return _threaded(case) and any(STAGES[s][2] and s != "aunth" for cmd in case["cmds"] for s in cmd["stages"][:-1])
@@ -435,7 +453,7 @@ def classify(case, level, group, probs, hang_cmd=None, also=()):
                          for cmd in case["cmds"])     # a redirect file opened for an earlier stage of that pipeline
         if group == "resources" and all(_f1_resource_problem(p, blocked, redirected) for p in probs):
             return "C09-F1"
-        if blocked:
+        if shape_f1_alias_before(case):
             if group == "std" and all(p.endswith("-> FileThreadDispatcher") for p in probs):
                 return "C09-F1"
             if group == "sigint" and all("surfaced as None" in p and "ProcProxyThread._signal_int" in p for p in probs):
@@ -503,6 +521,8 @@ def _group_of(problem):
         return "environ"
     if problem.startswith("terminal "):
         return "terminal"
+    if problem.startswith("termios "):
+        return "termios"
     return "other"
 
 
@@ -552,15 +572,26 @@ def _restore_baseline():
     if any(ob._is_closed(x) for x in st["std"]):
         _recreate_std()
     sys.stdin, sys.stdout, sys.stderr = st["std"]
+    _neutralise_saved_handlers()
     for name, h in st["handlers"].items():
         try:
             signal.signal(getattr(signal, name), h)
         except (OSError, ValueError, TypeError):
             pass
+    gc.collect()
+    for name, h in st["handlers"].items():
+        if signal.getsignal(getattr(signal, name)) is not h:
+            signal.signal(getattr(signal, name), h)
     try:
         os.chdir(st["cwd"])
     except OSError:
         pass
+    if st["tty_fd"] is not None:
+        try:
+            if os.tcgetpgrp(st["tty_fd"]) != os.getpgrp():
+                os.tcsetpgrp(st["tty_fd"], os.getpgrp())
+        except OSError:
+            pass
     if not _dirty():
         return None
     # something was left behind: drop every holder xonsh has, close what xonsh still owns *through its
@@ -618,6 +649,26 @@ def _restore_baseline():
                 f.write("   %r alive=%s ident=%s native=%s\n" % (t, t.is_alive(), t.ident, getattr(t, "native_id", None)))
             faulthandler.dump_traceback(file=f)
     return "could not restore a clean worker after a case (%s left behind)" % ",".join(left)
+
+
+def _neutralise_saved_handlers():
+    """ProcProxyThread.__del__ / PopenThread._clean_up re-install the handler the object saved when it was
+    created - whenever the object happens to be finalised, also during a *later* case (finding C09-F2 leaves
+    such objects behind, chained through their saved handlers).  Make every one of them forget its saved
+    handlers so that a case cannot change the handlers of the cases after it."""
+    try:
+        from xonsh.procs.posix import PopenThread
+        from xonsh.procs.proxies import ProcProxyThread
+    except Exception:  # noqa: BLE001
+        return
+    for o in gc.get_objects():
+        try:
+            if isinstance(o, (ProcProxyThread, PopenThread)):
+                for a in ("old_int_handler", "old_tstp_handler", "old_quit_handler", "old_winch_handler", "old_break_handler"):
+                    if getattr(o, a, None) is not None:
+                        setattr(o, a, None)
+        except Exception:  # noqa: BLE001
+            continue
 
 
 def _recreate_std():
@@ -699,6 +750,10 @@ def check_case(case, tolerate=frozenset(), stats=None):
             res, cur = res2, cur2
         probs = res + ob.diff_state(base, cur, env_ignore=ENV_IGNORE)
         for g, ps in _grouped(probs).items():
+            if g == "termios":
+                # the property names terminal *ownership*; attribute changes (e.g. VSUSP left disabled) are only counted
+                notes.append("termios-attributes-changed:" + level)
+                continue
             found[(level, g)] = ps
         return cur
 
@@ -771,7 +826,7 @@ def check_case(case, tolerate=frozenset(), stats=None):
                                 bucket=fid or "%s:%s:%s" % (level, group, "+".join(classes))))
     reason = _restore_baseline()
     if reason and not st["tainted"]:
-        st["tainted"] = reason
+        st["tainted"] = "%s after %r" % (reason, [c["src"] for c in cmds])
     if stats is not None:
         for n in notes:
             stats.hist[n] += 1
@@ -836,7 +891,7 @@ def case_strategy(tier):
     from hypothesis import strategies as hs
 
     stage = hs.sampled_from(STAGE_IDS)
-    reps = hs.sampled_from([1] * 10 + [3] * 8 + [30] * 2 + ([300] if tier == "thorough" else []))
+    reps = hs.sampled_from([1] * 20 + [3] * 16 + [30] * 4 + ([300] if tier == "thorough" else []))
 
     @hs.composite
     def pipeline(draw):
@@ -1061,6 +1116,28 @@ def _normalise(case):
     return case
 
 
+def _pool_map(run, funcname, args, procs):
+    """common.pool_map with one fresh process per task (max_tasks_per_child=1): a worker that could not be brought
+    back to a clean state after a case (an unkillable helper thread spinning after a hang) stops evaluating; with a
+    process per task that costs the rest of one small task, not the rest of the campaign."""
+    import concurrent.futures as cf
+    import multiprocessing as mp
+
+    out = []
+    with cf.ProcessPoolExecutor(max_workers=procs, mp_context=mp.get_context("spawn"), max_tasks_per_child=1) as ex:
+        futs = []
+        for i, a in enumerate(args):
+            sc = os.path.join(run.scratch, "w%d" % i)
+            os.makedirs(sc, exist_ok=True)
+            futs.append(ex.submit(common._pool_entry, (__name__, funcname, a, sc, False)))
+        for fu in futs:
+            out.append(fu.result())
+    for d in out:
+        if isinstance(d, dict) and "evaluations" in d and "nontrivial" in d:
+            run.stats.merge(d)
+    return out
+
+
 def _committed_replays():
     import glob
 
@@ -1077,12 +1154,14 @@ def _committed_replays():
 def main(run):
     helpers.ensure()
     nw = int(os.environ.get("C09_WORKERS", "16"))
-    per = run.n(60, 3200)
+    per = int(os.environ.get("C09_PER") or run.n(60, 2000))      # C09_PER: development override only
     replays = _committed_replays()
     tasks = [("replay", (c, run.scratch)) for c in replays]
-    tasks += [("grid", (i, nw, run.scratch, run.tier)) for i in range(nw)]
-    tasks += [("random", (common.worker_seed(run.seed, w), per, run.scratch, run.tier, False)) for w in range(nw)]
-    results = common.pool_map(run, __name__, "worker_any", tasks, procs=nw)
+    tasks += [("grid", (i, 16, run.scratch, run.tier)) for i in range(16)]
+    chunk = 60 if run.tier == "quick" else 200
+    nrandom = max(1, (per * 16) // chunk)
+    tasks += [("random", (common.worker_seed(run.seed, w), chunk, run.scratch, run.tier, False)) for w in range(nrandom)]
+    results = _pool_map(run, "worker_any", tasks, nw)
     stash = {json.dumps(c, sort_keys=True): [Failure.from_json(d) for d in r["failures"]] for c, r in zip(replays, results)}
 
     def replay_fn(case):
@@ -1101,8 +1180,8 @@ def main(run):
     common.replay_tier(run, replay_fn)
     if run.tier == "thorough":
         try:
-            common.pool_map(run, __name__, "worker_random",
-                            [(common.worker_seed(run.seed, 200 + w), 250, run.scratch, run.tier, True) for w in range(4)], procs=4)
+            _pool_map(run, "worker_random",
+                      [(common.worker_seed(run.seed, 100000 + w), min(per, 125), run.scratch, run.tier, True) for w in range(8)], 4)
             run.extra["terminal_ownership"] = "covered: pty-owning workers, tcgetpgrp + termios attributes in every snapshot"
         except common.HarnessError as e:
             run.extra["terminal_ownership"] = "NOT covered: pty worker failed (%s)" % str(e)[-300:]
